@@ -200,8 +200,8 @@ def write_tree(files: dict, roots: list[Path]) -> None:
 def strategy():
     from hypothesis import strategies as st
 
-    imp = st.tuples(st.integers(0, 2), st.integers(0, 7), st.sampled_from(["name", "name", "star"])).map(list)
-    mod_fields = {"imports": st.lists(imp, max_size=2), "export": st.booleans(), "stub": st.sampled_from([False, False, True])}
+    imp = st.tuples(st.sampled_from([1, 1, 1, 2, 0]), st.integers(0, 7), st.sampled_from(["name", "name", "star"])).map(list)
+    mod_fields = {"imports": st.lists(imp, max_size=2), "export": st.sampled_from([True, True, False]), "stub": st.sampled_from([False, False, True])}
     module = st.fixed_dictionaries({"t": st.just("m"), **mod_fields})
     decoy = st.fixed_dictionaries({"t": st.just("d"), "ext": st.integers(0, len(DECOY_EXTS) - 1)})
     leaf = st.one_of(module, module, decoy)
@@ -241,7 +241,7 @@ def strategy():
     static = st.fixed_dictionaries(
         {
             "kind": st.just("static"),
-            "pkgs": st.tuples(main_static, st.lists(other, max_size=2)).map(lambda t: [t[0], *t[1]]),
+            "pkgs": st.tuples(main_static, st.one_of(st.lists(other, max_size=2), st.lists(other, min_size=1, max_size=2))).map(lambda t: [t[0], *t[1]]),
             "opts": opts,
             "how": hows,
             "target": targets,
@@ -253,7 +253,7 @@ def strategy():
             "kind": st.just("fault"),
             "pkgs": st.tuples(main_fault, st.lists(other, max_size=1)).map(lambda t: [t[0], *t[1]]),
             "opts": opts,
-            "force": st.booleans(),
+            "force": st.sampled_from([True, True, True, False]),
             "how": st.sampled_from(["name", "name", "pathstr", "syspath", "initfile"]),
             "target": targets,
             "pth": st.just(False),
